@@ -165,6 +165,10 @@ def step (_ : Unit) (toks : List String) : Unit × String :=
     match pIdent i with
     | some i => ((), s!"s={encB (spiffe i)}")
     | none => ((), "bad-op")
+  | ["esc", b] =>
+    match decB b with
+    | some b => ((), s!"s={encB (escapePath b)}")
+    | none => ((), "bad-op")
   | ["xfcc", es] =>
     match (lst "+" es).mapM pXElem with
     | some es => ((), s!"s={encB (xfccHeader es)}")
